@@ -80,6 +80,11 @@ public:
 private:
     void resetMIDIDefaults(int offset = 0);
 
+    /**
+     * @brief Forget all active notes (the chip channels they were using have been re-created)
+     */
+    void dropActiveNotes();
+
 public:
     /**********************Internal structures and classes**********************/
 
